@@ -79,7 +79,7 @@ def make_loss(spec):
     if k == "msm":
         cov = spec.get("cov", "identity")
         if not isinstance(cov, str):
-            cov = np.array(cov, dtype=float)
+            cov = np.array(cov, dtype=int if spec.get("cov_int") else float)
         kw = {}
         if spec.get("calc"):
             kw["moment_calculator"] = CALCS[spec["calc"]][0]
@@ -172,7 +172,7 @@ def loss_spec(draw, d, n, kind=None, nonneg_weights=True):
             "filters": draw(filters_spec(d, names=("none", "demean", "diffpad", "double", "reverse", "cumsum")
                                          if n < 3 else ("none", "demean", "diffpad", "double", "reverse", "cumsum", "hp")))}
     if kind == "minkowski":
-        spec["p"] = draw(st.sampled_from([1, 2, 3, 1.5]))
+        spec["p"] = draw(st.sampled_from([1, 2, 3, 1.5, 4, 0.5, 2.0]))
     elif kind == "msm":
         calc = draw(st.sampled_from([None, None, "mean_var_max", "first_last", "quartiles", "tail_view"]))
         spec["calc"] = calc
@@ -182,14 +182,18 @@ def loss_spec(draw, d, n, kind=None, nonneg_weights=True):
             a = draw(st.lists(st.lists(dyadic, min_size=k, max_size=k), min_size=k, max_size=k))
             a = np.array(a)
             cov = ((a + a.T) / 2).tolist()
+            if draw(st.integers(0, 3)) == 0:
+                # an integer-typed weighting matrix (e.g. np.eye(k, dtype=int) scaled)
+                cov = np.rint(np.array(cov) * 2).astype(int).tolist()
+                spec["cov_int"] = True
         spec["cov"] = cov
         spec["standardise"] = draw(st.booleans())
     elif kind == "fourier":
         spec["filter"] = draw(st.sampled_from(["ideal", "gaussian"]))
-        spec["f"] = draw(st.sampled_from([1.0, 0.8, 0.5, 0.3, 0.75, 0.1, 0.25]))
+        spec["f"] = draw(st.sampled_from([1.0, 0.8, 0.5, 0.3, 0.75, 0.1, 0.25, 1]))
     elif kind == "gsl":
         spec["nb_values"] = draw(st.one_of(st.none(), st.integers(2, 25)))
         spec["nb_word_lengths"] = draw(st.one_of(st.none(), st.integers(1, min(n, 18)), st.integers(1, min(n, 70))))
     elif kind == "likelihood":
-        spec["h"] = draw(st.sampled_from(["silverman", "scott", 0.5, 1.0, 2.0]))
+        spec["h"] = draw(st.sampled_from(["silverman", "scott", 0.5, 1.0, 2.0, 1, 2]))
     return spec
